@@ -86,7 +86,7 @@ Print Assumptions C17_every_step_decreases_rank.
 Theorem C17_schedules_bounded :
   forall cfgs waits sched st,
     run (init cfgs waits) sched = Some st ->
-    length sched <= 17 * length cfgs + (6 + length cfgs) * length waits.
+    length sched <= 19 * length cfgs + (6 + length cfgs) * length waits.
 Proof. exact schedules_bounded. Qed.
 Print Assumptions C17_schedules_bounded.
 
@@ -134,37 +134,29 @@ Theorem C17_cancel_kills_spawned :
 Proof. exact cancel_kills. Qed.
 Print Assumptions C17_cancel_kills_spawned.
 
-(* "no solver process keeps running after shutdown", the part that holds: every process that
-   existed when a shutdown() call (either kind, any number of concurrent callers) took the
-   lock is dead when that call has returned *)
-Theorem C17_shutdown_kills_spawned :
-  forall cfgs waits sched st k j,
-    run (init cfgs waits) sched = Some st -> spawned_before_acquire k j sched ->
-    returned st k = true -> running st j = false.
-Proof. exact shutdown_kills_spawned. Qed.
-Print Assumptions C17_shutdown_kills_spawned.
+(* "After a shutdown request no solver process keeps running" (was refuted: F6 -- cancel() was a
+   no-op while the worker had not reached Popen yet -- repaired by 1eaaf0c: spawn lock + cancel
+   request flag): when ANY shutdown() call, of either kind, has returned, NO solver process runs *)
+Theorem C17_no_process_after_shutdown :
+  forall cfgs waits sched st k,
+    run (init cfgs waits) sched = Some st -> returned st k = true -> forall j, running st j = false.
+Proof. exact no_process_after_shutdown. Qed.
+Print Assumptions C17_no_process_after_shutdown.
 
-(* ... and that is ALL that can go wrong with shutdown(wait=False): if a process runs after it
-   has returned, then a cancel task of that call did run for the job, and the process was
-   spawned only after it (the F6 window below) *)
-Theorem C17_nowait_shutdown_only_late_spawn :
-  forall cfgs waits sched st k j,
-    run (init cfgs waits) sched = Some st -> nth_error waits k = Some false ->
-    returned st k = true -> running st j = true ->
-    exists pre mid post, sched = pre ++ LSdCancel k j :: mid ++ LPopen j true :: post.
-Proof. exact nowait_only_late_spawn. Qed.
-Print Assumptions C17_nowait_shutdown_only_late_spawn.
+(* ... and none is spawned later: once a cancel task has run for a job, no process is ever spawned
+   for it (a job cancelled before its process existed ends with ShutdownError, delivered exactly
+   once like every other job: C17_exactly_once_quiescent, C17_wait_returns) *)
+Theorem C17_no_spawn_after_cancel :
+  forall cfgs waits sched st j,
+    run (init cfgs waits) sched = Some st -> ~ spawned_after_cancel j sched.
+Proof. exact no_spawn_after_cancel. Qed.
+Print Assumptions C17_no_spawn_after_cancel.
 
-(* REFUTED (defect F6, not repaired): "after shutdown no solver process keeps running" for
-   shutdown(wait=False): cancel() is a no-op while the worker has not reached Popen yet, so a
-   process is spawned after shutdown(wait=False) has returned (without any late acceptance)
-   and is running in the final state *)
-Theorem C17_no_process_after_shutdown_refuted :
-  exists cfgs waits sched st k j,
-    run (init cfgs waits) sched = Some st /\ ~ accepted_after_return sched /\
-    spawned_after_return sched /\ returned st k = true /\ running st j = true.
-Proof. exact no_process_after_shutdown_refuted. Qed.
-Print Assumptions C17_no_process_after_shutdown_refuted.
+(* run(): the exception raised for a job cancelled before its spawn is caught and stored, so it
+   is delivered through the worker's finally block *)
+Theorem C17_refusal_exception_stored : catches gen_run_handlers gen_refusal_exn = true.
+Proof. exact refusal_caught_true. Qed.
+Print Assumptions C17_refusal_exception_stored.
 
 (* cancel(): the kill escalation SIGTERM -> grace period -> SIGKILL.  The exception that the
    grace-period wait raises for a process that ignored SIGTERM (a fact of the library the wait
@@ -191,29 +183,34 @@ Proof. exact timeout_caught_true. Qed.
 Print Assumptions C17_timeout_exception_stored.
 
 (* non-vacuity: a complete run of a job with a time limit that times out (its process ignores
-   SIGTERM), a job (ignoring SIGTERM too) that is killed
-   by a shutdown(wait=False) issued while a shutdown(wait=True) is waiting, and a job that is
-   rejected under the lock: delivered exactly once, reported unknown / error, quiescent *)
+   SIGTERM), a job (ignoring SIGTERM too) that is killed by a shutdown(wait=False) issued while a
+   shutdown(wait=True) is waiting, a job that is rejected under the lock, and a job that is
+   cancelled before its worker has spawned the process: each accepted job delivered exactly once,
+   reported unknown / error, quiescent, no process *)
 Example C17_nonvacuous :
   let sched := [LSubCheck 0; LSubAcquire 0; LSubRecheck 0; LSubAppend 0; LSubStart 0; LSubRelease 0;
                 LSubCheck 1; LSubAcquire 1; LSubRecheck 1; LSubAppend 1; LSubStart 1; LSubRelease 1;
-                LPopen 0 true; LPopen 1 true; LSubCheck 2; LSdSet 1; LSdAcquire 1; LSdSnap 1; LSdRelease 1;
+                LSubCheck 3; LSubAcquire 3; LSubRecheck 3; LSubAppend 3; LSubStart 3; LSubRelease 3;
+                LSpawnEnter 0; LPopen 0 true; LSpawnEnter 1; LPopen 1 true;
+                LSubCheck 2; LSdSet 1; LSdAcquire 1; LSdSnap 1; LSdRelease 1;
                 LSubAcquire 2; LSubRecheck 2; LSubUnlock 2;
                 LCommTimeout 0; LFinally 0; LSetResult 0; LSdJoin 1;
-                LSdSet 0; LSdAcquire 0; LSdCancel 0 1; LSdCancel 0 0; LSdReturn 0;
-                LCommExc 1; LFinally 1; LSetResult 1; LSdJoin 1; LSdReturn 1;
-                LSubWait 0; LSubWait 1] in
-  exists st, run (init [(true, true); (false, true); (false, false)] [false; true]) sched = Some st /\
-    deliveries 0 sched = 1 /\ timed_out 0 sched /\ quiescentb st = true /\
+                LSdSet 0; LSdAcquire 0; LSdCancel 0 1; LSdCancel 0 3; LSdCancel 0 0; LSdReturn 0;
+                LCommExc 1; LFinally 1; LSetResult 1; LSdJoin 1;
+                LSpawnEnter 3; LFinally 3; LSetResult 3; LSdJoin 1; LSdReturn 1;
+                LSubWait 0; LSubWait 1; LSubWait 3] in
+  exists st, run (init [(true, true); (false, true); (false, false); (false, false)] [false; true]) sched = Some st /\
+    deliveries 0 sched = 1 /\ deliveries 3 sched = 1 /\ timed_out 0 sched /\ quiescentb st = true /\
     cancelled_while_spawned 1 sched /\ spawned_before_acquire 0 1 sched /\
     returned st 0 = true /\ returned st 1 = true /\
-    map spc (jobs st) = [SGot VUnknown; SGot VRaise; SRejected] /\ map proc (jobs st) = [PDead; PDead; PNone].
+    map spc (jobs st) = [SGot VUnknown; SGot VRaise; SRejected; SGot VRaise] /\
+    map proc (jobs st) = [PDead; PDead; PNone; PNone].
 Proof.
   cbv zeta. eexists. split; [vm_compute; reflexivity|].
-  split; [reflexivity|]. split; [unfold timed_out; simpl; auto 40|]. split; [reflexivity|].
-  split; [match goal with |- cancelled_while_spawned _ ?s => exists (firstn 28 s), (skipn 29 s), 0 end;
-          split; [reflexivity|simpl; auto 40]|].
-  split; [match goal with |- spawned_before_acquire _ _ ?s => exists (firstn 27 s), (skipn 28 s) end;
-          split; [reflexivity|simpl; auto 40]|].
+  split; [reflexivity|]. split; [reflexivity|]. split; [unfold timed_out; simpl; auto 60|]. split; [reflexivity|].
+  split; [match goal with |- cancelled_while_spawned _ ?s => exists (firstn 36 s), (skipn 37 s), 0 end;
+          split; [reflexivity|simpl; auto 60]|].
+  split; [match goal with |- spawned_before_acquire _ _ ?s => exists (firstn 35 s), (skipn 36 s) end;
+          split; [reflexivity|simpl; auto 60]|].
   repeat split; reflexivity.
 Qed.
